@@ -336,6 +336,17 @@ func checkC12(c *Ctx) {
 		}
 	}, "C09/GUARD/file/(*file.Store).RemoveMessage", "C12/RACE/file-remove-atomic", "file store: RemoveMessage loads the index, removes and writes it back inside one critical section of the bucket lock")
 	r.Floor("C12/RACE/file-remove-atomic", "borrowed obligations", nF, 1)
+	// "even while new mail is being delivered": a delivery that lets go of the bucket lock between
+	// reserving its place and committing the index lets the scan's removal of the mailbox's last
+	// expired message take the directory — and the raw file being written — away underneath it
+	nFA := c.borrow(func(c2 *Ctx) {
+		if pm2 := c2.pairing(); pm2.ok {
+			c2.c09File(pm2)
+		}
+	}, "C09/GUARD/file/(*file.Store).AddMessage", "C12/RACE/file-add-atomic", "file store: AddMessage loads the index, writes the body and commits the index inside one critical section of the bucket lock, so a scan cannot remove the mailbox directory under a delivery in flight")
+	r.Floor("C12/RACE/file-add-atomic", "borrowed obligations", nFA, 1)
+	// the file store's ids are not reissued either (the scan removes by id)
+	c.fileIDUnique("C12/RACE/file-ids-never-reused")
 }
 
 func itoa(k int64) string {
